@@ -1,12 +1,216 @@
-(* MV.C08.Properties — the statements of property C08 and nothing else. *)
+(* MV.C08.Properties — the statements of property C08 (scheduler part) and nothing else.
+   Every theorem is closed by [exact <lemma>] and followed by Print Assumptions.
+
+   Vocabulary (MV.C08.SchedModel): [init tick start] is a fresh chrono.Scheduler (REPAIRED code: task.timer holds the
+   wheel's handle) created at instant [start] (ns) with tick [tick] (ns); [run s ops] performs a history of
+   Register / Unregister / Clear / Close / Names / Advance operations and returns the final state and one output per
+   operation; an [event] is one execution of a callback: instant in ms (= the wheel bucket), instance id (= position of
+   the registration among all registrations), ordinal of the execution (0 = the synchronous "immediate" call made by a
+   registration), and whether the callback's own unregister/re-register crashed.  [count_ev id evs] counts the
+   timer-driven executions (ordinal > 0) of instance [id].  [close_ok false ops]: Close is not called on a closed
+   scheduler (documented: unusable afterwards).  [fuel_ok outs]: no Advance ran into the iteration bound 2^40. *)
 From MV Require Import Lib.ListX C08.SchedModel C08.SchedProofs.
 Open Scope Z_scope.
 
+(* No operation crashes: on every state reachable from a fresh scheduler, every operation returns normally, and no
+   callback that unregisters / re-registers its own task crashes.  For all ticks, delays, intervals, counts (including
+   forever and cron), all histories. *)
+Theorem C08_no_crash : forall tick start ops,
+  0 < tick -> 0 <= start -> close_ok false ops ->
+  Forall out_safe (snd (run (init tick start) ops)).
+Proof. exact no_crash. Qed.
+Print Assumptions C08_no_crash.
+
+(* The code AS SHIPPED (handle never stored) violates it: unregistering a pending repeated task dereferences nil. *)
+Theorem C08_no_crash_as_shipped_refuted :
+  exists tick start ops, 0 < tick /\ 0 <= start /\ close_ok false ops /\
+    ~ Forall out_safe (snd (run (new_sched false tick start) ops)).
+Proof. exact no_crash_as_shipped_refuted. Qed.
+Print Assumptions C08_no_crash_as_shipped_refuted.
+
+(* A one-shot task runs at most once, whatever else happens (re-registrations, cancellations, callbacks that touch
+   the table, Clear, Close), ... *)
+Theorem C08_oneshot_at_most_once : forall tick start pre n a re post,
+  0 < tick -> 0 <= start -> close_ok false (pre ++ Register n (SAfter a) re :: post) ->
+  fuel_ok (snd (run (init tick start) (pre ++ Register n (SAfter a) re :: post))) ->
+  count_ev (nins (fst (run (init tick start) pre)))
+           (all_events (snd (run (init tick start) (pre ++ Register n (SAfter a) re :: post)))) <= 1.
+Proof. exact oneshot_at_most_once. Qed.
+Print Assumptions C08_oneshot_at_most_once.
+
+(* ... and exactly once if nobody touches its name, the scheduler is not cleared or closed, and time passes beyond
+   its due instant (any other tasks may come, go and run in between). *)
+Theorem C08_oneshot_once : forall tick start pre n a post T,
+  0 < tick -> 0 <= start ->
+  close_ok false (pre ++ Register n (SAfter a) [] :: post ++ [Advance T]) ->
+  fuel_ok (snd (run (init tick start) (pre ++ Register n (SAfter a) [] :: post ++ [Advance T]))) ->
+  has_close pre = false -> Forall (leaves_alone n) post ->
+  let s1 := fst (run (init tick start) pre) in
+  s_now (fst (run (init tick start) (pre ++ Register n (SAfter a) [] :: post))) < T ->
+  to_ms (s_now s1 + clampd a tick) * MS <= T ->
+  count_ev (nins s1)
+    (all_events (snd (run (init tick start) (pre ++ Register n (SAfter a) [] :: post ++ [Advance T])))) = 1.
+Proof. exact oneshot_exactly_once. Qed.
+Print Assumptions C08_oneshot_once.
+
+(* Not early, in model time (the wheel's clock): the execution happens in the wheel bucket of
+   (registration instant + max(delay, tick)); that bucket begins less than one tick + 1 ms before that instant and not
+   after it. *)
+Theorem C08_oneshot_not_early : forall tick start pre n a re post,
+  0 < tick -> 0 <= start -> close_ok false (pre ++ Register n (SAfter a) re :: post) ->
+  fuel_ok (snd (run (init tick start) (pre ++ Register n (SAfter a) re :: post))) ->
+  let s1 := fst (run (init tick start) pre) in
+  let due := s_now s1 + clampd a tick in
+  forall e, In e (all_events (snd (run (init tick start) (pre ++ Register n (SAfter a) re :: post)))) ->
+    e_inst e = nins s1 -> 0 < e_ord e ->
+    e_ms e = trunc (to_ms due) (Z.quot tick MS) /\
+    (MS <= tick -> due - tick - MS < e_ms e * MS <= due).
+Proof. exact oneshot_not_early. Qed.
+Print Assumptions C08_oneshot_not_early.
+
+(* Full statement "never before registration instant + delay" is FALSE of the timing wheel (buckets are rounded down):
+   tick 10 ms, registered 1.5 ms after a bucket boundary with a delay of 25 ms, runs 18.5 ms later. *)
+Theorem C08_oneshot_not_early_strict_refuted :
+  exists tick start pre n a post,
+    0 < tick /\ 0 <= start /\ close_ok false (pre ++ Register n (SAfter a) [] :: post) /\
+    let s1 := fst (run (init tick start) pre) in
+    exists e, In e (all_events (snd (run (init tick start) (pre ++ Register n (SAfter a) [] :: post)))) /\
+      e_inst e = nins s1 /\ 0 < e_ord e /\ e_ms e * MS < s_now s1 + a.
+Proof. exact oneshot_not_early_strict_refuted. Qed.
+Print Assumptions C08_oneshot_not_early_strict_refuted.
+
+(* A task repeated N times runs at most N times, whatever else happens, ... *)
+Theorem C08_repeat_at_most_N : forall tick start pre n a i N re post,
+  0 < tick -> 0 <= start -> close_ok false (pre ++ Register n (SRepeat a i N) re :: post) ->
+  fuel_ok (snd (run (init tick start) (pre ++ Register n (SRepeat a i N) re :: post))) ->
+  0 < N ->
+  count_ev (nins (fst (run (init tick start) pre)))
+           (all_events (snd (run (init tick start) (pre ++ Register n (SRepeat a i N) re :: post)))) <= N.
+Proof. exact repeat_at_most_N. Qed.
+Print Assumptions C08_repeat_at_most_N.
+
+(* ... exactly N times if it is left alone until its last due instant has passed, ... *)
+Theorem C08_repeat_exactly_N : forall tick start pre n a i N post T,
+  0 < tick -> 0 <= start ->
+  close_ok false (pre ++ Register n (SRepeat a i N) [] :: post ++ [Advance T]) ->
+  fuel_ok (snd (run (init tick start) (pre ++ Register n (SRepeat a i N) [] :: post ++ [Advance T]))) ->
+  has_close pre = false -> Forall (leaves_alone n) post -> 0 < N ->
+  let s1 := fst (run (init tick start) pre) in
+  s_now (fst (run (init tick start) (pre ++ Register n (SRepeat a i N) [] :: post))) < T ->
+  (to_ms (s_now s1 + clampd a tick) + (N - 1) * Z.quot (clampd i tick) MS) * MS <= T ->
+  count_ev (nins s1)
+    (all_events (snd (run (init tick start) (pre ++ Register n (SRepeat a i N) [] :: post ++ [Advance T])))) = N.
+Proof. exact repeat_exactly_N. Qed.
+Print Assumptions C08_repeat_exactly_N.
+
+(* ... and its k-th execution happens in the bucket of (first expiration in ms) + (k-1) (interval in ms). *)
+Theorem C08_repeat_instants : forall tick start pre n a i N re post,
+  0 < tick -> 0 <= start -> close_ok false (pre ++ Register n (SRepeat a i N) re :: post) ->
+  fuel_ok (snd (run (init tick start) (pre ++ Register n (SRepeat a i N) re :: post))) ->
+  let s1 := fst (run (init tick start) pre) in
+  forall e, In e (all_events (snd (run (init tick start) (pre ++ Register n (SRepeat a i N) re :: post)))) ->
+    e_inst e = nins s1 -> 0 < e_ord e ->
+    e_ms e = trunc (to_ms (s_now s1 + clampd a tick) + (e_ord e - 1) * Z.quot (clampd i tick) MS) (Z.quot tick MS) /\
+    (0 < N -> e_ord e <= N).
+Proof. exact fire_instants. Qed.
+Print Assumptions C08_repeat_instants.
+
+(* Re-registering a name replaces the earlier task: the task that held the name never runs again, the name denotes
+   the new task. *)
+Theorem C08_replace : forall tick start pre n sp re post,
+  0 < tick -> 0 <= start -> close_ok false (pre ++ Register n sp re :: post) ->
+  fuel_ok (snd (run (init tick start) (pre ++ Register n sp re :: post))) ->
+  let s1 := fst (run (init tick start) pre) in
+  forall j, lookup n (s_map s1) = Some j ->
+    count_ev j (all_events (snd (run s1 (Register n sp re :: post)))) = 0 /\
+    lookup n (s_map (fst (step s1 (Register n sp re)))) = Some (nins s1).
+Proof. exact replace. Qed.
+Print Assumptions C08_replace.
+
+(* A cancelled task never runs again: the executions over the whole history are those before the cancellation
+   (so: cancelled before it was first due = it never runs). *)
+Theorem C08_cancel_before_due_never_fires : forall tick start pre n post,
+  0 < tick -> 0 <= start -> close_ok false (pre ++ Unregister n :: post) ->
+  fuel_ok (snd (run (init tick start) (pre ++ Unregister n :: post))) ->
+  let s1 := fst (run (init tick start) pre) in
+  forall j, lookup n (s_map s1) = Some j ->
+    count_ev j (all_events (snd (run s1 (Unregister n :: post)))) = 0 /\
+    count_ev j (all_events (snd (run (init tick start) (pre ++ Unregister n :: post)))) =
+      count_ev j (all_events (snd (run (init tick start) pre))) /\
+    lookup n (s_map (fst (step s1 (Unregister n)))) = None.
+Proof. exact cancel_never_fires. Qed.
+Print Assumptions C08_cancel_before_due_never_fires.
+
+(* Clear (restart of the owner, SchedulerPool.Put) and Close (termination of the owner) cancel every task. *)
+Theorem C08_clear_close_cancel_all : forall tick start pre o post,
+  0 < tick -> 0 <= start -> close_ok false (pre ++ o :: post) -> o = Clear \/ o = Close ->
+  fuel_ok (snd (run (init tick start) (pre ++ o :: post))) ->
+  let s1 := fst (run (init tick start) pre) in
+  forall j, (j < nins s1)%nat -> count_ev j (all_events (snd (run s1 (o :: post)))) = 0.
+Proof. exact clear_close_cancel_all. Qed.
+Print Assumptions C08_clear_close_cancel_all.
+
+(* Nothing is run by a timer after Close, not even tasks registered later (ordinal 0 = synchronous call made by a
+   registration itself, e.g. a missed day moment). *)
+Theorem C08_no_fire_after_close : forall tick start pre post,
+  0 < tick -> 0 <= start -> close_ok false (pre ++ Close :: post) ->
+  fuel_ok (snd (run (init tick start) (pre ++ Close :: post))) ->
+  let s2 := fst (step (fst (run (init tick start) pre)) Close) in
+  forall e, In e (all_events (snd (run s2 post))) -> e_ord e = 0.
+Proof. exact no_fire_after_close. Qed.
+Print Assumptions C08_no_fire_after_close.
+
+(* ---------------------------------------------------------------- non-vacuity *)
+
+Definition t0 : Z := 946684800000000000.   (* 2000-01-01T00:00:00Z in ns *)
+
+(* a task repeated 3 times, registered 1.5 ms after the start of a 10 ms wheel: 15 ms, then every 30 ms *)
 Example C08_example_repeat3 :
-  snd (run (new_sched true 10000000 946684800000000000)
-           [Advance 946684800001500000; Register 0 (SRepeat 15000000 30000000 3) []; Advance 946684800200000000])
+  snd (run (init 10000000 t0) [Advance (t0 + 1500000); Register 0 (SRepeat 15000000 30000000 3) []; Advance (t0 + 200000000)])
   = [ORes false []; ORes false [];
      ORes false [{| e_ms := 946684800010; e_inst := 0; e_ord := 1; e_crash := false |};
                  {| e_ms := 946684800040; e_inst := 0; e_ord := 2; e_crash := false |};
                  {| e_ms := 946684800070; e_inst := 0; e_ord := 3; e_crash := false |}]].
+Proof. vm_compute. reflexivity. Qed.
+
+(* the hypotheses of C08_repeat_exactly_N are satisfiable with other tasks registered, replaced and running meanwhile *)
+Example C08_example_exactly_N_hyps :
+  let pre := [Advance (t0 + 1500000); Register 1 (SRepeat 0 0 (-1)) []] in
+  let post := [Advance (t0 + 22000000); Register 1 (SAfter 5000000) []; Unregister 2; Names] in
+  let T := t0 + 200000000 in
+  let s1 := fst (run (init 10000000 t0) pre) in
+  close_ok false (pre ++ Register 0 (SRepeat 15000000 30000000 3) [] :: post ++ [Advance T]) /\
+  fuel_ok (snd (run (init 10000000 t0) (pre ++ Register 0 (SRepeat 15000000 30000000 3) [] :: post ++ [Advance T]))) /\
+  has_close pre = false /\ Forall (leaves_alone 0) post /\
+  s_now (fst (run (init 10000000 t0) (pre ++ Register 0 (SRepeat 15000000 30000000 3) [] :: post))) < T /\
+  (to_ms (s_now s1 + clampd 15000000 10000000) + (3 - 1) * Z.quot (clampd 30000000 10000000) MS) * MS <= T /\
+  count_ev (nins s1) (all_events (snd (run (init 10000000 t0) (pre ++ Register 0 (SRepeat 15000000 30000000 3) [] :: post ++ [Advance T])))) = 3.
+Proof.
+  cbv zeta. splits.
+  - cbn. splits; auto; intros; discriminate.
+  - intros H. vm_compute in H. repeat (destruct H as [H|H]; [discriminate|]). exact H.
+  - reflexivity.
+  - repeat constructor; cbn; discriminate.
+  - vm_compute. reflexivity.
+  - vm_compute. intros H; discriminate.
+  - vm_compute. reflexivity.
+Qed.
+
+(* replace and cancel: the forever task 0 is replaced by a one-shot after two executions; the one-shot is cancelled *)
+Example C08_example_replace_cancel :
+  all_events (snd (run (init 10000000 t0)
+     [Advance (t0 + 2000000); Register 0 (SRepeat 0 0 (-1)) []; Advance (t0 + 25000000); Register 0 (SAfter 25000000) [];
+      Advance (t0 + 35000000); Unregister 0; Advance (t0 + 300000000)]))
+  = [{| e_ms := 946684800010; e_inst := 0; e_ord := 1; e_crash := false |};
+     {| e_ms := 946684800020; e_inst := 0; e_ord := 2; e_crash := false |}].
+Proof. vm_compute. reflexivity. Qed.
+
+(* the as-shipped code on the same history: the re-registration crashes, the one-shot is never registered *)
+Example C08_example_as_shipped :
+  snd (run (new_sched false 10000000 t0)
+     [Advance (t0 + 2000000); Register 0 (SRepeat 0 0 (-1)) []; Advance (t0 + 25000000); Register 0 (SAfter 25000000) []; Names])
+  = [ORes false []; ORes false [];
+     ORes false [{| e_ms := 946684800010; e_inst := 0; e_ord := 1; e_crash := false |};
+                 {| e_ms := 946684800020; e_inst := 0; e_ord := 2; e_crash := false |}];
+     ORes true []; ONames [0%nat]].
 Proof. vm_compute. reflexivity. Qed.
